@@ -50,11 +50,19 @@ METADATA_FIELDS = (
 ).split()
 
 
+def _plain(v):
+    """A metadata value as plain data; anything that is not a str / int / None is spelt out with its
+    type so that a wrongly typed field is visible (and JSON-able)."""
+    if v is None or type(v) in (str, int, bool, float):
+        return v
+    return "<%s %r>" % (type(v).__name__, v)
+
+
 def obs_metadata(m):
     d = {}
     for f in METADATA_FIELDS:
         v = getattr(m, f)
-        d[f] = v.name if f == "player2" and hasattr(v, "name") else v
+        d[f] = v.name if f == "player2" and hasattr(v, "name") and type(v).__name__ == "Player2Instrument" else _plain(v)
     return d
 
 
